@@ -309,12 +309,22 @@ class ExprMixin:
                 out.append((kind, s, vs))
                 continue
             items = []
+            opaque = False
             for e, v in zip(node.elts, vs):
                 if isinstance(e, ast.Starred):
-                    items += self.concrete_items(v, s)
+                    if isinstance(v, (VTuple, VLoc)):
+                        items += self.concrete_items(v, s)
+                    else:
+                        opaque = True
+                        items.append(v)
                 else:
                     items.append(v)
-            out.append(("val", s, VTuple(items) if tuple_ else s.new_loc("list", items)))
+            if opaque:
+                # a display splicing an opaque iterable: an opaque sequence determined by its parts
+                self.abstractions.add("a list/tuple display splicing an opaque iterable is an opaque object")
+                out.append(("val", s, VObj(to_obj_term(VTuple([VConst("*display")] + items)))))
+            else:
+                out.append(("val", s, VTuple(items) if tuple_ else s.new_loc("list", items)))
         return out
 
     def ev_Set(self, node, st):
@@ -867,7 +877,10 @@ class ExprMixin:
         if isinstance(c, VObj):
             f = z3.Function("obj_getitem", ty.IntS, ty.IntS, ty.IntS)
             return [self.val(st, VObj(f(c.t, to_obj_term(k))))]
-        if isinstance(c, VModule) or isinstance(c, VConst):
+        if isinstance(c, VConst):
+            f = z3.Function("obj_getitem", ty.IntS, ty.IntS, ty.IntS)
+            return [self.val(st, VObj(f(to_obj_term(c), to_obj_term(k))))]
+        if isinstance(c, VModule):
             raise EngineError(f"subscript of {c!r}")
         if isinstance(c, VRef):
             return self.call_method(c, "__getitem__", [k], {}, st, None)
@@ -1031,6 +1044,8 @@ class ExprMixin:
         """[f(x) for x in <abstract collection> if c(x)]: the result is an
         abstract collection described by quantified membership facts; the
         element expression must be pure (field reads)."""
+        if isinstance(it, VConst):
+            it = VObj(to_obj_term(it))
         if isinstance(it, VObj):
             # opaque iterable: the result is an opaque object determined by the source (element expression evaluated
             # once on an opaque item to make sure it is pure)
